@@ -141,11 +141,59 @@ def check_flow(net, flow_items, cut):
     return errs
 
 
-def call_ff(net):
-    from socialchoicekit.flow import ford_fulkerson
+def call_ff(net, record_paths=False):
+    import socialchoicekit.flow as fl
     G = to_graph(net)
-    flow, cut = ford_fulkerson(G, net["s"], net["t"])
-    return {"flow": [[int(u), int(v), int(f)] for (u, v), f in flow.items()], "cut": sorted(int(x) for x in cut)}
+    paths = []
+    if record_paths:
+        orig = fl.dfs_path
+        depth = [0]
+
+        def wrapped(Gf, current, sink, visited):
+            depth[0] += 1
+            try:
+                r = orig(Gf, current, sink, visited)
+            finally:
+                depth[0] -= 1
+            if depth[0] == 0 and r is not None:
+                paths.append([[int(v) for v in r[0]], int(r[1])])
+            return r
+        fl.dfs_path = wrapped
+        try:
+            flow, cut = fl.ford_fulkerson(G, net["s"], net["t"])
+        finally:
+            fl.dfs_path = orig
+    else:
+        flow, cut = fl.ford_fulkerson(G, net["s"], net["t"])
+    out = {"flow": [[int(u), int(v), int(f)] for (u, v), f in flow.items()], "cut": sorted(int(x) for x in cut)}
+    if record_paths:
+        out["paths"] = paths
+    return out
+
+
+def lean_ffdfs_line(net):
+    finite = sum(c for u, v, c in net["edges"] if c < MAXSIZE // 4)
+    rounds = finite + len(net["edges"]) + 2
+    return " ".join(["ffdfs"] + net_tokens(net) + [str(rounds)])
+
+
+def ffdfs_expected(net, res):
+    """the answer line the mirror must give for this implementation run"""
+    value = 0
+    fl_ = {(u, v): f for u, v, f in res["flow"]}
+    for w in net["verts"]:
+        if (net["s"], w) in fl_:
+            value += fl_[(net["s"], w)]
+        elif (w, net["s"]) in fl_:
+            value -= fl_[(w, net["s"])]
+    toks = ["ok", str(value), str(len(res["paths"]))]
+    for pth, c in res["paths"]:
+        toks += [str(len(pth))] + [str(v) for v in pth] + [str(c)]
+    toks += [str(len(res["flow"]))]
+    for u, v, f in res["flow"]:
+        toks += [str(u), str(v), str(f)]
+    toks += [str(len(res["cut"]))] + [str(x) for x in sorted(res["cut"])]
+    return " ".join(toks)
 
 
 def net_tokens(net):
